@@ -7,7 +7,10 @@ TimePointParser.strptime (equal instant for determining formats; period
 start and assumed zone for partial ones); unsupported %-letters must be
 refused with a ValueError subclass."""
 import string
+import time as _time
 from fractions import Fraction as F
+
+from unittest import mock
 
 from .. import gen
 from .. import refmodel as R
@@ -194,7 +197,7 @@ def install(ctx, repo, probes):
     for c in SUPPORTED:
         ctx.target("directive/%" + c)
     ctx.target("strftime/via-operator", "unsupported-refused-strptime",
-               "strftime/end-of-day-24")
+               "strftime/end-of-day-24", "strptime/local-default")
     ctx.target("parser/assumed+default-unknown", "empty-format",
                "week-year-differs-from-calendar-year", "%s-before-1970",
                "strptime/full", "strptime/epoch", "strptime/partial",
@@ -301,6 +304,32 @@ def run_case(ctx, repo, case):
         rd = R.tp_rd(MODE, p)
         if n >= 2 or R.rd_to_week(MODE, rd)[0] != R.rd_to_ymd(MODE, rd)[0]:
             ctx.nontrivial((key, fmt))
+        return
+    if op == "local-default":
+        # one long-lived parser without an assumed zone reads zone-less
+        # texts while the system's local offset changes between the calls:
+        # each time the offset in effect then is the default
+        parser = ctx.parsers.setdefault("local-default",
+                                        repo.parsers.TimePointParser())
+        secs = case["local_seconds"]
+        m = mock.Mock(spec=_time)
+        m.timezone = m.altzone = -secs
+        m.daylight = 0
+        m.localtime.return_value = mock.Mock(tm_isdst=0)
+        rd = R.tp_rd(MODE, p)
+        text = p.strftime(fmt)
+        ctx.expect = {"kind": "partial", "key": key, "offset": secs // 60,
+                      "instant": rd * 86400 + int(R.tp_sod(p)) - secs}
+        try:
+            with mock.patch.object(repo.timezone, "time", m):
+                try:
+                    parser.strptime(text, fmt)
+                except Exception:
+                    pass
+        finally:
+            ctx.expect = None
+        ctx.cls("strptime/local-default")
+        ctx.nontrivial((key, fmt, op, secs))
         return
     # round trip
     assumed = tuple(case.get("assumed", (0, 0)))
@@ -411,6 +440,21 @@ def workload(ctx, repo):
                         "assumed": [0, 0]}
                 ctx.case = case
                 ctx.ev("cases.literal-punctuation")
+                run_case(ctx, repo, case)
+    # the system's local offset as the default, changing between the calls
+    # of one parser
+    if ctx.worker == 0:
+        for j, secs in enumerate((0, 19800, -28800, 3600, 0, -12600, 45900,
+                                  19800, 0)):
+            for fmt in ("%Y-%m-%d %H:%M:%S", "%Y%m%dT%H%M%S", "%F %X"):
+                kw = make_point(rng)
+                for key_ in ("time_zone_hour", "time_zone_minute"):
+                    kw.pop(key_, None)
+                kw.update(gen.zone_kwargs((0, 0)))
+                case = {"op": "local-default", "p": kw, "fmt": fmt,
+                        "local_seconds": secs}
+                ctx.case = case
+                ctx.ev("cases.local-default")
                 run_case(ctx, repo, case)
     # %s beside other directives, before and after them: the Unix time
     # decides the instant wherever it stands in the format
